@@ -251,6 +251,9 @@ func (db *dispatchBuilder) RequiredRepeatedParam(tp string) {
 
 func (db *dispatchBuilder) RequiredRepeatedParam2(tp px.Type) {
 	db.assertNotAfterRepeated()
+	if db.min < db.max {
+		panic(`Required parameters must not come after optional parameters in a dispatch`)
+	}
 	db.types = append(db.types, tp)
 	db.min++
 	db.max = math.MaxInt64
